@@ -18,7 +18,7 @@ import z3
 
 from symx import sreal as S
 from symx import npproxy, zoo, fo
-from symx.concolic import model_values
+from symx.concolic import model_values, explore
 from symx.series_tools import load_irispie
 from symx.report import standard_main
 from checks.C08 import STDS
@@ -36,13 +36,14 @@ def _diag(v):
 
 
 class CovLift:
-    def __init__(self, ir, m, scale=1):
+    def __init__(self, ir, m, scale=1, values=None):
         from irispie.fords import covariances as cv
         from irispie.simultaneous import _covariances as sc
         import scipy
         self.cv, self.sc, self.scipy = cv, sc, scipy
         self.m = m
         self.scale = scale
+        self.values = values or {}      # shadow values of the variance symbols (DART)
         self.contract = []
         self.calls = 0
 
@@ -50,8 +51,8 @@ class CovLift:
         m, outer = self.m, self
         vec = m._get_dynamic_solution_vectors()
         q2n = m.create_qid_to_name()
-        self.vu = [S.sym("v_" + q2n[t.qid], Fraction(1, 2)) for t in vec.transition_shocks]
-        self.vw = [S.sym("v_" + q2n[t.qid], Fraction(1, 3)) for t in vec.measurement_shocks]
+        self.vu = [S.sym("v_" + q2n[t.qid], self.values.get("v_" + q2n[t.qid], Fraction(1, 2))) for t in vec.transition_shocks]
+        self.vw = [S.sym("v_" + q2n[t.qid], self.values.get("v_" + q2n[t.qid], Fraction(1, 3))) for t in vec.measurement_shocks]
         sc_ = self.scale
 
         def lyap(A, Q, *a, **k):
@@ -62,9 +63,15 @@ class CovLift:
             X = np.empty((n, n), dtype=object)
             c = outer.calls
             outer.calls += 1
+            # shadows: the float solution at the shadow variances, so that concolic branches on covariances follow the real path
+            try:
+                Xf = outer.scipy.linalg.solve_discrete_lyapunov(np.asarray(A, dtype=float), np.asarray(S.shadow_float(Q), dtype=float))
+                Xf = (Xf + Xf.T) / 2
+            except Exception:
+                Xf = np.full((n, n), 0.5)
             for i in range(n):
                 for j in range(i, n):
-                    X[i, j] = X[j, i] = S.sym(f"X{c}_{i}_{j}", Fraction(1, 2))
+                    X[i, j] = X[j, i] = S.sym(f"X{c}_{i}_{j}", Fraction(float(Xf[i, j])))
             R = A.astype(object) @ X @ A.T.astype(object) + Q
             for i in range(n):
                 for j in range(i, n):
@@ -200,58 +207,95 @@ def check_model(run, ir, zm, order):
         run.counterexample(key, finding, f"autocovariances violate {bad[:3]}", dict(case, what="relations", bad=bad[:5], values={k: [v.numerator, v.denominator] for k, v in vals.items()}))
     else:
         run.unknown(key, f"solver {res}")
-    # ---- acorr
+    # ---- acorr: every path of the scaling code over the variances (DART), each decided for all values on the path
     key2 = f"acorr:{zm.name}:order<={order}"
-    try:
-        with CovLift(ir, m) as L2, S.Path() as path2:
+    names = sorted(syms)
+
+    def runner(values):
+        with CovLift(ir, m, values=values) as L2:
             acov2 = m.get_acov(up_to_order=order)
             acorr = m.get_acorr(acov=acov2, up_to_order=order)
+        return acov2, acorr, L2
+    try:
+        with S.Path():
+            contract0 = runner({})[2].contract
+        dom0 = box + contract0
+        results, exhausted = explore(names, runner, domain=dom0, init={k: v.v for k, v in syms.items()}, max_paths=40, stats=run.q, timeout_ms=30000)
     except S.SymbolicBranchError as exc:
         run.unknown(key2, exc)
         return
-    A0 = np.asarray(acov2[0], dtype=object)
-    # Each claim  acorr_ab * std_a * std_b == acov_ab  is decided on an ABSTRACTION: the acov entry and the two standard
-    # deviations SQRT(acov_aa), SQRT(acov_bb) are replaced by fresh symbols (c arbitrary, q > 0).  The abstraction has more
-    # models than the original, so `unsat` is conclusive; it checks exactly the scaling code (acorr_from_acov/_get_scale_matrix).
-    eqs, dom = [], []
-    fresh = {}
+    run.paths += len(results)
+    if not exhausted:
+        run.unknown(key2, f"path enumeration over the variances not exhausted after {len(results)} paths")
+        return
+    npos_paths = 0
+    for pth, (acov2, acorr, L2), values in results:
+        pc = pth.condition()
+        A0 = np.asarray(acov2[0], dtype=object)
+        positive = [S.shadow_float(np.array([A0[a, a]], dtype=object))[0] > 0 if _t(A0[a, a]) is not None else False for a in range(A0.shape[0])]
+        # (i) both variances positive on this path: acorr_ab * std_a * std_b == acov_ab, decided on an ABSTRACTION: the acov entry and the
+        #     two standard deviations SQRT(acov_aa), SQRT(acov_bb) are replaced by fresh symbols (c arbitrary, q > 0).  The abstraction has
+        #     more models than the original, so `unsat` is conclusive; a model of it is decided by replay.
+        # (ii) a variance not positive on this path: the path condition (with the Lyapunov contract) must imply that the covariance
+        #     entry itself is zero -- the variable is degenerate, and the reported correlation is 0 -- exact linear arithmetic.
+        eqs, dom, zero_claims = [], [], []
+        fresh = {}
 
-    def ab(term, prefix, positive=False):
-        k = term.get_id()
-        if k not in fresh:
-            fresh[k] = z3.Real(f"{prefix}{len(fresh)}")
-            if positive:
-                dom.append(fresh[k] > 0)
-        return (term, fresh[k])
-    for j in range(order + 1):
-        Rj, Aj = np.asarray(acorr[j], dtype=object), np.asarray(acov2[j], dtype=object)
-        for a in range(Rj.shape[0]):
-            for b in range(Rj.shape[1]):
-                r_, c_ = _t(Rj[a, b]), _t(Aj[a, b])
-                if r_ is None or c_ is None:
-                    if (r_ is None) != (c_ is None):
-                        run.counterexample(key2, finding + ":acorr", f"acorr[{a},{b}] NaN pattern differs from acov", dict(case, what="acorr"))
-                        return
-                    continue
-                saa, sbb = S.const(A0[a, a]).sqrt().t, S.const(A0[b, b]).sqrt().t
-                subs = [ab(saa, "q", True), ab(sbb, "q", True)]
-                if not (z3.is_rational_value(c_)):
-                    subs.append(ab(c_, "c"))
-                eq = r_ * saa * sbb == c_
-                eqs.append(z3.substitute(eq, *subs))
-    res, mdl = run.prove(key2, z3.And(*eqs), dom + [path2.condition()] if False else dom, timeout_ms=60000, nl=True) if eqs else ("unsat", None)
-    left = [e for e in eqs if "SQRT" in str(e)]
-    if res == "unsat" and not left:
-        run.reach_ok += 1
-        if len(run.samples) < 12:
-            run.samples.append({"obligation": key2, "verdict": "unsat on the abstraction (acov entries and order-0 standard deviations as fresh symbols)", "example": str(eqs[0])[:200]})
-        run.ok(key2)
-    elif res == "sat":
-        # a model of the abstraction is not a counterexample of the real code: replay decides
-        run.counterexample(key2, finding + ":acorr", "acorr is not acov scaled by the order-0 standard deviations (abstract model; decided by replay)",
-                           dict(case, what="acorr", values={}))
-    else:
-        run.unknown(key2, f"solver {res}; unabstracted SQRT terms: {len(left)}")
+        def ab(term, prefix, positive_=False):
+            k = term.get_id()
+            if k not in fresh:
+                fresh[k] = z3.Real(f"{prefix}{len(fresh)}")
+                if positive_:
+                    dom.append(fresh[k] > 0)
+            return (term, fresh[k])
+        for j in range(order + 1):
+            Rj, Aj = np.asarray(acorr[j], dtype=object), np.asarray(acov2[j], dtype=object)
+            for a in range(Rj.shape[0]):
+                for b in range(Rj.shape[1]):
+                    r_, c_ = _t(Rj[a, b]), _t(Aj[a, b])
+                    if r_ is None or c_ is None:
+                        if (r_ is None) != (c_ is None):
+                            run.counterexample(key2, finding + ":acorr", f"acorr[{a},{b}] NaN pattern differs from acov", dict(case, what="acorr"))
+                            return
+                        continue
+                    if positive[a] and positive[b]:
+                        saa, sbb = S.const(A0[a, a]).sqrt().t, S.const(A0[b, b]).sqrt().t
+                        subs = [ab(saa, "q", True), ab(sbb, "q", True)]
+                        if not (z3.is_rational_value(c_)):
+                            subs.append(ab(c_, "c"))
+                        eqs.append(z3.substitute(r_ * saa * sbb == c_, *subs))
+                    else:
+                        zero_claims.append(z3.And(c_ == 0, r_ == 0))
+        if eqs:
+            npos_paths += 1
+            res, mdl = run.prove(key2, z3.And(*eqs), dom, timeout_ms=60000, nl=True)
+            left = [e for e in eqs if "SQRT" in str(e)]
+            if res == "sat" or (res == "unsat" and left):
+                # a model of the abstraction is not a counterexample of the real code: replay (at this path's variances) decides
+                run.counterexample(key2, finding + ":acorr", "acorr is not acov scaled by the order-0 standard deviations (abstract model; decided by replay)",
+                                   dict(case, what="acorr", values={k: [Fraction(v).numerator, Fraction(v).denominator] for k, v in values.items()}))
+                return
+            if res != "unsat":
+                run.unknown(key2, f"solver {res}")
+                return
+        if zero_claims:
+            res, mdl = run.prove(key2 + ":degenerate", z3.And(*zero_claims), dom0 + [pc], timeout_ms=60000)
+            if res == "sat":
+                vals = model_values(mdl, names)
+                run.counterexample(key2, finding + ":acorr", "a variable is treated as having zero variance (correlations reported as 0) although its covariances are not zero",
+                                   dict(case, what="acorr", values={k: [v.numerator, v.denominator] for k, v in vals.items()}))
+                return
+            if res != "unsat":
+                run.unknown(key2, f"solver {res} on the degenerate-variance claims")
+                return
+    if npos_paths == 0:
+        run.unknown(key2, "no path with positive variances")
+        return
+    run.reach_ok += 1
+    if len(run.samples) < 12:
+        run.samples.append({"obligation": key2, "verdict": "unsat on every path of the scaling code over the variances (abstraction for positive variances, exact for degenerate ones)",
+                            "paths": len(results)})
+    run.ok(key2)
 
 
 def main(run):
@@ -347,7 +391,19 @@ def replay(case):
     sd = np.sqrt(np.diag(A0))
     for j in range(order + 1):
         cmp(f"acorr {j}", np.asarray(acorr[j], dtype=float) * np.outer(sd, sd), np.asarray(api[j], dtype=float))
-    return worst > 1e-6, msg
+    if worst > 1e-6:
+        return True, msg
+    # scale-free: wherever both variances are positive the correlation is acov / (std_a std_b)
+    pos = sd > 0
+    for j in range(order + 1):
+        R, A = np.asarray(acorr[j], dtype=float), np.asarray(api[j], dtype=float)
+        for a in range(len(sd)):
+            for b in range(len(sd)):
+                if pos[a] and pos[b] and np.isfinite(A[a, b]):
+                    want = A[a, b] / (sd[a] * sd[b])
+                    if abs(R[a, b] - want) > 1e-6:
+                        return True, f"acorr order {j} [{a},{b}] = {R[a, b]!r} but acov/(std std) = {want!r} (variances {A0[a, a]!r}, {A0[b, b]!r})"
+    return False, msg
 
 
 if __name__ == "__main__":
